@@ -4,9 +4,9 @@ CONSTANT CoefSel = "small"
 CONSTANT XIds = {1, 3}
 CONSTANT ZIds = {1}
 CONSTANT HIds = {1}
-CONSTANT Lays = {2, 3}
+CONSTANT Lays = {2, 3, 4, 5}
 CONSTANT Mod = 9
-CONSTANT TsMod = 9
+CONSTANT TsMod = 12
 INIT Init
 NEXT Next
 INVARIANT C13_Representable
